@@ -73,6 +73,10 @@ try:
 except Exception:
     pass
 res.setdefault("breaks_property", prop)
+if "first_attempt" not in res and prop in checks:
+    c = checks[prop]
+    res["first_attempt"] = ("caught by the check as registered when the seed arrived" if c["detected"] else
+                            "inconclusive (exit %s) before strengthening" % c["exit"] if c["exit"] not in (0, 1) else "missed before strengthening")
 res["ran"] = "scratch worktree: suite + demo with/without patch; then VERIF_REPO=<scratch worktree with the change> ./vcheck run %s --tier %s; worktree removed afterwards" % (" ".join([prop] + extra), tier)
 json.dump(res, open(os.path.join(dst, "meta.json"), "w"), indent=1)
 print(json.dumps({k: v for k, v in res.items() if k != "what_it_needs"}, indent=1))
